@@ -72,3 +72,16 @@ def parse_fields(ver, s):
         if p and s.startswith(p):
             pfx, body = p, s[len(p):]
     return pfx, [tuple(f.split(":")) for f in body.split("/")]
+
+
+def rejected_verdict(ver, s, e):
+    """for replay(): the constructor rejects `s`.  That fails a property about accepted vectors only if `s` IS a valid vector
+    (Lean grammar); a string the grammar rejects too (e.g. a corpus entry recorded from a change that accepted it) leaves
+    nothing to check."""
+    try:
+        vd = core.run_driver(["S\tacc\t%s\t%s" % (ver, core.enc(s))])[0] if core.sendable(s) else "unknown"
+    except Exception:  # noqa
+        vd = "unknown"
+    if vd == "ok":
+        return False, "CVSS%s(%r) is rejected (%s) although it is a valid vector" % (ver, s, e)
+    return True, "CVSS%s(%r) is rejected (%s) and is not a valid vector of the version (grammar: %s): nothing to check" % (ver, s, e, vd)
